@@ -214,7 +214,7 @@ func init() {
 			whereOf := func(st *handlerSite) string {
 				if st.Caller == m.An.fn {
 					// position of the call inside the switch
-					return m.An.clauseOf(st.Call.Pos())
+					return m.An.groupAt(st.Call.Pos())
 				}
 				return "host-parsers"
 			}
